@@ -139,5 +139,8 @@ func (p *Plan) Clone() *Plan {
 	b, _ := p.Encode(false)
 	var q Plan
 	_ = json.Unmarshal(b, &q)
+	if q.Params == nil {
+		q.Params = map[string]any{}
+	}
 	return &q
 }
